@@ -311,6 +311,22 @@ func Run(r *core.Run) {
 			add(fmt.Sprintf("replace/padded-endpoint/%d/%d", pi, vi), M{"action": "replace", "document": M{"services": []any{svc("s", "T", padded)}}}, nil)
 		}
 	}
+	// members that are present with the value null: a key's material, a service's endpoint, type and id, the purposes
+	{
+		sv := svc("svc-1", "T", "https://a.example/")
+		sv["serviceEndpoint"] = nil
+		addSvcs("endpoint-null", []any{sv}, &no)
+		addSvcs("endpoint-null-second", []any{svc("svc-0", "T", "https://a.example/"), sv}, &no)
+		add("replace/endpoint-null", M{"action": "replace", "document": M{"services": []any{sv}}}, &no)
+		for _, m := range []string{"type", "id"} {
+			s2 := svc("svc-1", "T", "https://a.example/")
+			s2[m] = nil
+			addSvcs(m+"-null", []any{s2}, &no)
+		}
+		for _, ep := range []any{false, 0.0, M{}, []any{}, []any{nil}, M{"uri": nil}} {
+			addSvcs(fmt.Sprintf("endpoint-%s", core.J(ep)), []any{svc("svc-1", "T", ep)}, nil)
+		}
+	}
 	addSvcs("second-service-bad", []any{svc("svc-1", "T", "https://a.example/"), svc("svc-2", "T", "")}, &no)
 	// also-known-as
 	for _, a := range []string{"add-also-known-as", "remove-also-known-as"} {
